@@ -22,6 +22,7 @@ VS = MV + 'verify_standard_certificate'
 VG = MV + 'verify_genesis_certificate'
 SCOPE = 'mithril_common::certificate_chain::*'
 CERT = 'mithril_common::entities::certificate::Certificate'
+RETR = '*CertificateRetriever::get_certificate_details'
 
 
 def has(og, pat):
@@ -52,6 +53,12 @@ def p_epoch_part(g):
 
 def run(ctx):
     R = ctx.report
+    _WS[0] = ctx.ws
+    _WS[2] = ctx
+    try:
+        _WS[1] = ctx.within(VC)
+    except Exception:  # noqa
+        _WS[1] = None
     R.clause('a', 'a standard certificate is accepted (Ok(Some(prev))) only after all nine checks')
     R.clause('b', 'the previous certificate returned is the one fetched by previous_hash and checked')
     R.clause('c', 'genesis: hash, signed message, Ed25519 signature under the configured key, epoch part')
@@ -76,20 +83,16 @@ def run(ctx):
     for what, fns in chain_fns.items():
         if fns:
             ctx.r1('a', VC, Sink(what + ' chaining guard', [f.name for f in fns], 'ok'), **std)
-    # arguments of the multi-signature verification
-    msv = '*MithrilCertificateVerifier::verify_multi_signature'
-    integ = find_caller_of(ctx, msv)
-    if integ is not None:
-        ctx.arg_origin('a', integ, msv, 1, require=['pty:Certificate.signed_message'], desc='(message) <- certificate.signed_message')
-        ctx.arg_origin('a', integ, msv, 2, require=['pty:Certificate.signature*'], desc='(signature) <- certificate.signature')
-        ctx.arg_origin('a', integ, msv, 3, require=['call:*Certificate::create_aggregate_verification_key'],
-                       desc='(avk) <- certificate.create_aggregate_verification_key()')
-        ctx.arg_origin('a', integ, msv, 4, require=['pty:Certificate.metadata.protocol_parameters'],
-                       desc='(parameters) <- certificate.metadata.protocol_parameters')
-    ctx.arg_origin('a', msv, 'mithril_stm::*::AggregateSignature::verify', 1, require=['p#2'], forbid=['p#3*', 'p#4*'], desc='(msg) <- message')
-    ctx.arg_origin('a', msv, 'mithril_stm::*::AggregateSignature::verify', 0, require=['p#3'], desc='(self) <- multi_signature')
-    ctx.arg_origin('a', msv, 'mithril_stm::*::AggregateSignature::verify', 2, require=['p#4'], desc='(avk) <- aggregate_verification_key')
-    ctx.arg_origin('a', msv, 'mithril_stm::*::AggregateSignature::verify', 3, require=['p#5'], desc='(parameters) <- protocol_parameters')
+    # arguments of the multi-signature verification, wherever it is called under verify_certificate (layout independent):
+    # what is verified is the certificate under verification (never the fetched previous one), with its own key material
+    AGGV = 'mithril_stm::*::AggregateSignature::verify'
+    FETCHED = '*CertificateRetriever::get_certificate_details'
+    ctx.sink_arg('a', VC, AGGV, 1, require=['pty:Certificate.signed_message'], forbid_via=[FETCHED], desc='(message) <- certificate.signed_message')
+    ctx.sink_arg('a', VC, AGGV, 0, require=['pty:Certificate.signature'], forbid_via=[FETCHED], desc='(multi-signature) <- certificate.signature')
+    ctx.sink_arg('a', VC, AGGV, 2, require=['call:*Certificate::create_aggregate_verification_key'], forbid_via=[FETCHED],
+                 desc='(avk) <- certificate.create_aggregate_verification_key()')
+    ctx.sink_arg('a', VC, AGGV, 3, require=['pty:Certificate.metadata.protocol_parameters'], forbid_via=[FETCHED],
+                 desc='(parameters) <- certificate.metadata.protocol_parameters')
 
     # ---------------- (b)
     f = ctx.try_fn('b', VC)
@@ -106,17 +109,18 @@ def run(ctx):
             if x is None:
                 continue
             og = fn_origins(lf, x, True)
-            ok = has(og, 'call:*fetch_previous_certificate*') or has(og, 'call:*CertificateRetriever::get_certificate_details')
+            ok = ctx.via_sink(og, RETR)
             detail = sorted(o for o in og if o.startswith('call:mithril'))[:4]
         if ok:
             R.ok('b', 'R5', 'verify_certificate: Some(payload) <- fetched previous certificate', str(detail), f.loc())
         else:
             R.violation('b', 'R5', 'verify_certificate: Some(payload) <- fetched previous certificate', 'verify_certificate:some-payload',
                         'the returned previous certificate does not derive from the certificate retriever', f.loc())
-    ctx.arg_origin('b', VC, VS, 2, require=['call:*fetch_previous_certificate*'], desc='(previous) <- fetch_previous_certificate')
-    ctx.arg_origin('b', VC, VS, 1, require=['p#2'], forbid=['call:*fetch_previous_certificate*'], desc='(certificate) <- certificate')
-    ctx.arg_origin('b', '*MithrilCertificateVerifier::fetch_previous_certificate', '*CertificateRetriever::get_certificate_details', 1,
-                   require=['pty:Certificate.previous_hash'], desc='(hash) <- certificate.previous_hash')
+    # the certificate handed to the per-certificate checks as `previous` is the fetched one, the other one is the input;
+    # the fetch is by certificate.previous_hash (wherever these calls sit under verify_certificate)
+    ctx.sink_arg('b', VC, VS, 2, require_via=[RETR], desc='(previous) <- the certificate fetched by the retriever', depth=2)
+    ctx.sink_arg('b', VC, VS, 1, require=['pty:Certificate'], forbid_via=[RETR], desc='(certificate) <- the certificate under verification', depth=2)
+    ctx.sink_arg('b', VC, RETR, 1, require=['pty:Certificate.previous_hash'], forbid_via=[RETR], desc='(hash) <- certificate.previous_hash')
 
     # ---------------- (c)
     ctx.relation_gate('c', VG, 'computed hash == certificate.hash', SCOPE, p_hash, {'eq'})
@@ -182,6 +186,10 @@ def run(ctx):
             if cert_full:
                 tr = track_result(body, c.dest[0], +1)
                 full_edges |= tr.success_edges
+        # ... or written as a direct test (`Some(t) if t.certifies_full_certificate_chain() => ..`)
+        for c in body.calls():
+            if any('certifies_full_certificate_chain' in n for n in c.names()):
+                full_edges |= track_result(body, c.dest[0], +1).success_edges
         hits = success_reachable(body, gen_edges | full_edges, 'ok', ret_filter=ret_ok_none)
         if hits or not gen_edges:
             R.violation('d', 'R1', 'verify_certificate: Ok(None) only after genesis verification / full-chain branch',
@@ -255,6 +263,8 @@ def run(ctx):
         if not fns:
             R.violation('e', 'R6', '%s chaining guard exists' % what, 'chaining:%s:exists' % what,
                         'no function in %s compares previous/next %s under the same-epoch / cross-epoch split' % (SCOPE, what), None)
+        else:
+            R.ok('e', 'R6', '%s chaining guard exists' % what, ', '.join(fn_short(x.name) for x in fns))
     # equality of the chained values is total on their fields (a key differing only in total stake is a different key)
     for adt, ex in (('mithril_stm::proof_system::concatenation::aggregate_key::AggregateVerificationKeyForConcatenation', {}),
                     ('mithril_stm::membership_commitment::merkle_tree::commitment::MerkleTreeBatchCommitment',
@@ -294,9 +304,24 @@ def run(ctx):
     client(ctx)
 
 
+_WS = [None, None, None]
+
+
 def p_epoch_dir(g):
-    # previous (p#3) vs certificate (p#2) epochs in an ordering comparison
-    return g.op in ('Gt', 'Ge', 'Lt', 'Le') and has(g.a_orig, 'p#3.epoch') and has(g.b_orig, 'p#2.epoch')
+    """(previous.epoch ? certificate.epoch) in an ordering comparison, whichever way round it is written and however the two
+    certificates reach the comparing function: the PREVIOUS certificate is the one fetched through the retriever."""
+    if g.op not in ('Gt', 'Ge', 'Lt', 'Le') or not (has(g.a_orig, 'pty:Certificate.epoch') and has(g.b_orig, 'pty:Certificate.epoch')):
+        return False
+    from props.common import deep_origins
+    FETCHED = 'call:*CertificateRetriever::get_certificate_details'
+    da = deep_origins(_WS[0], g.fn, g.a, True, depth=4, within=_WS[1])
+    db = deep_origins(_WS[0], g.fn, g.b, True, depth=4, within=_WS[1])
+    a_prev, b_prev = _WS[2].via_sink(da, FETCHED[5:]), _WS[2].via_sink(db, FETCHED[5:])
+    if a_prev and not b_prev:
+        return True
+    if b_prev and not a_prev:
+        return 'swap'
+    return False
 
 
 def find_caller_of(ctx, callee_pat):
@@ -317,6 +342,7 @@ def chaining(ctx):
     for f in ctx.ws.find_all(SCOPE):
         if f.kind == 'closure' or f.unit.tag != 'lib' or f.argc != 3:
             continue
+        f = ctx.view(f)
         body = f.body
         gs = find_guards(body)
         eg = [g for g in gs if g.op == 'Eq' and sides(g, 'p#3.epoch', 'p#2.epoch')]
